@@ -214,8 +214,10 @@ def run_job(job, res, mod=None):
             return
     ok = parse_stdout(out, res, job)
     found = classify_stderr(res.prop, err)
+    m = re.search(r'^VF_CASE (.*)$', err, re.M)
+    case_txt = ('job=%s %s' % (job.name, m.group(1))) if m else 'job=%s' % job.name
     for key, what in found:
-        res.viol(key, what, 'job=%s' % job.name, job)
+        res.viol(key, what, case_txt, job)
     if rc != 0 or not ok:
         if not found and not any(v['job'] and v['job']['name'] == job.name for v in res.viols):
             if rc is not None and rc < 0:
